@@ -267,7 +267,7 @@ def op(cfg, depth, names=None, opnd=None):
         'center': st.fixed_dictionaries({'op': st.just('center'), 'w': width, 'f': fill, 'ext': st.booleans(), 'ip': ip}),
         'zfill': st.fixed_dictionaries({'op': st.just('zfill'), 'w': width, 'ip': ip}),
         'assign': st.fixed_dictionaries({'op': st.just('assign'), 't': texts(0, 12, esc=cfg.esc, nonascii=cfg.nonascii)}),
-        'replace': st.fixed_dictionaries({'op': st.just('replace'), 'old': texts(1, 2, nonascii=False, alphabet=pa),
+        'replace': st.fixed_dictionaries({'op': st.just('replace'), 'old': weighted((12, texts(1, 2, nonascii=False, alphabet=pa)), (1, st.just({'whole': True}))),
                                           'new': opd, 'n': st.sampled_from([-1, -1, 0, 1, 2]), 'ip': ip}),
         'strip': st.fixed_dictionaries({'op': st.just('strip'), 'c': st.one_of(st.none(), sub), 'ip': ip}),
         'lstrip': st.fixed_dictionaries({'op': st.just('lstrip'), 'c': st.one_of(st.none(), sub), 'ip': ip}),
